@@ -156,6 +156,12 @@ class C07(Oracle):
             else:
                 if key in self.blk_t:
                     self.fail("blocked-customer-released-as-unblocked", "ind %s from node %s" % (iid, nid))
+                c = R.log.last_cust
+                recs = c.data_records if (c is not None and c is not False and getattr(c, "id_number", None) == iid) else []
+                if recs and recs[-1].record_type == "interrupted service" and recs[-1].exit_date == R.t and recs[-1].destination == d:
+                    # a pre-emptive reroute, not a service completion: documented to ignore queue capacities
+                    R.counts["C07:reroutes_seen"] += 1
+                    return
                 if d != -1:
                     dest = R.sim.nodes[d]
                     # the customer has already been taken out of its own node: a self-loop saw itself
